@@ -76,6 +76,14 @@ pub fn driver(dir: &str, history: &str) {
         store.append(Frame::builder("a", ZERO_CONTEXT).hash(h).meta(meta("one")).build()).unwrap()
     };
     ack(&mut n, json!({"op": "append", "effects": [{"ins": fj(&f1)}], "cas": [f1.hash.as_ref().map(|h| h.to_string())]}));
+    // a request carrying the same bytes is refused (unregistered context): acknowledged frames
+    // keep their content, at every crash point
+    if let Some(s) = &server {
+        let never = Scru128Id::from_u128((3u128 << 100) | 77);
+        let r = crate::http::once(&s.sock, &Req::new("POST", &format!("/a?context={}", never)).body(b"content-one"));
+        assert!(r.status >= 400, "an append into an unregistered context was accepted");
+        ack(&mut n, json!({"op": "refused-append", "effects": []}));
+    }
     // 3 append into the context
     let f2 = if let Some(s) = &server {
         let r = crate::http::once(&s.sock, &Req::new("POST", &format!("/a?context={}", ctx.id)).body(&vec![7u8; 9000]));
